@@ -149,9 +149,51 @@ theorem binParen_true (o : BinOp) (q : Option BinOp) : binParen o true q = (!o.o
   simp [binParen, padded_all]
 
 theorem norm_bin (o : BinOp) (a b : Expr) :
-    norm (.bin o a b) = if o.omitSame then attach o (norm a) (norm b) else .bin o (norm a) (norm b) := rfl
+    norm (.bin o a b) = if o.chainR then attach o (norm a) (norm b) else .bin o (norm a) (norm b) := rfl
+
+theorem chainR_omit {o : BinOp} (h : o.chainR = true) : o.omitSame = true := by
+  simp only [BinOp.chainR, Bool.and_eq_true] at h; exact h.1
+theorem chainR_flag {o : BinOp} (h : o.chainR = true) : ExpPrec.rightOperandSeesParent = true := by
+  simp only [BinOp.chainR, Bool.and_eq_true] at h; exact h.2
+theorem rprev_of_chainR {o : BinOp} (h : o.chainR = true) : rprev o = some o := by simp [rprev, chainR_flag h]
+/-- a right operand is printed in parentheses whenever it is an operator expression that does not continue the chain -/
+theorem rprev_paren (o o' : BinOp) (h : o.chainR = false) : binParen o' true (rprev o) = true := by
+  rw [binParen_true]
+  unfold rprev
+  by_cases hf : ExpPrec.rightOperandSeesParent = true
+  · simp only [hf, if_true]
+    simp only [BinOp.chainR, hf, Bool.and_true] at h
+    by_cases hoo : o' = o
+    · subst hoo; simp [h]
+    · simp [hoo, Ne.symm hoo]
+  · simp [hf]
 theorem norm_neg (a : Expr) : norm (.neg a) = .neg (norm a) := rfl
 theorem norm_not (a : Expr) : norm (.not a) = .not (norm a) := rfl
+
+theorem flag_false : ExpPrec.rightOperandSeesParent = false := rfl
+/-- no operator lets a right operand continue its chain: `EXPRop2__out` hands `OP_UNKNOWN` to the right operand -/
+theorem chainR_false (o : BinOp) : o.chainR = false := by simp [BinOp.chainR, flag_false]
+theorem rprev_none (o : BinOp) : rprev o = none := by simp [rprev, flag_false]
+
+theorem normWith_id (f : BinOp → Bool) (hf : ∀ o, f o = false) : ∀ e : Expr, normWith f e = e := by
+  intro e
+  induction e with
+  | bin o a b iha ihb => simp [normWith, hf, iha, ihb]
+  | neg a ih => simp [normWith, ih]
+  | not a ih => simp [normWith, ih]
+  | dot a f ih => simp [normWith, ih]
+  | group a f ih => simp [normWith, ih]
+  | index a i iha ihi => simp [normWith, iha, ihi]
+  | range a i j iha ihi ihj => simp [normWith, iha, ihi, ihj]
+  | query v s c ihs ihc => simp [normWith, ihs, ihc]
+  | call f a ih => simp [normWith, ih]
+  | aggr a ih => simp [normWith, ih]
+  | cons e t ihe iht => simp [normWith, ihe, iht]
+  | rep e c t ihe ihc iht => simp [normWith, ihe, ihc, iht]
+  | _ => simp [normWith]
+
+/-- what the parser reads back is the expression itself -/
+theorem norm_id (e : Expr) : norm e = e := normWith_id _ chainR_false e
 
 theorem attach_assoc (o : BinOp) (l x : Expr) : ∀ y, attach o (attach o l x) y = attach o l (attach o x y) := by
   intro y
@@ -221,7 +263,7 @@ structure ParseOK (e : Expr) : Prop where
   loop : ∀ p q, ∃ c, c ≤ sz e ∧ 1 ≤ c ∧ ∀ n, 4 * sz e ≤ n → ∀ m r,
       LoopCond e p q m r → NoQ r →
       parseExpr n m (T e p q ++ r) = parseLoop (n - c) m (norm e) r
-  chain : ∀ o, o.omitSame = true → ∃ d, d ≤ sz e ∧ 1 ≤ d ∧ ∀ n, 4 * sz e + 1 ≤ n → ∀ m l r, m ≤ o.bp → Fol (o.bp + 1) r →
+  chain : ∀ o, o.chainR = true → ∃ d, d ≤ sz e ∧ 1 ≤ d ∧ ∀ n, 4 * sz e + 1 ≤ n → ∀ m l r, m ≤ o.bp → Fol (o.bp + 1) r →
       parseLoop n m l (.op o :: (T e true (some o) ++ r)) = parseLoop (n - d) m (attach o l (norm e)) r
 
 /-- `loop` for a closed form follows from `unary` -/
@@ -235,10 +277,11 @@ theorem loop_of_unary (e : Expr) (p : Bool) (q : Option BinOp)
   simp
 
 /-- `chain` for an operand that is not itself a chain of `o` -/
-theorem chain_of_loop (e : Expr) (o : BinOp) (ho : o.omitSame = true) (hne : ∀ x y, e ≠ .bin o x y)
+theorem chain_of_loop (e : Expr) (o : BinOp) (hoc : o.chainR = true) (hne : ∀ x y, e ≠ .bin o x y)
     (hl : ∀ n, 4 * sz e ≤ n → ∀ m r, NoQ r → parseExpr n m (T e true (some o) ++ r) = parseLoop (n - 1) m (norm e) r)
     (n : Nat) (hn : 4 * sz e + 1 ≤ n) (m : Nat) (l : Expr) (r : List Tok) (hm : m ≤ o.bp) (hr : Fol (o.bp + 1) r) :
     parseLoop n m l (.op o :: (T e true (some o) ++ r)) = parseLoop (n - 1) m (attach o l (norm e)) r := by
+  have ho := chainR_omit hoc
   have := sz_pos e
   obtain ⟨k, rfl⟩ : ∃ k, n = k + 1 := ⟨n - 1, by omega⟩
   rw [parseLoop]
@@ -258,7 +301,7 @@ theorem T_neg (a : Expr) (p : Bool) (q : Option BinOp) :
 theorem T_not (a : Expr) (p : Bool) (q : Option BinOp) :
     T (.not a) p q = (if p then [.lp] else []) ++ [.not] ++ T a true none ++ (if p then [.rp] else []) := by simp [T, toks]
 theorem T_bin (o : BinOp) (a b : Expr) (p : Bool) (q : Option BinOp) :
-    T (.bin o a b) p q = (if binParen o p q then [.lp] else []) ++ T a true (some o) ++ [.op o] ++ T b true (some o)
+    T (.bin o a b) p q = (if binParen o p q then [.lp] else []) ++ T a true (some o) ++ [.op o] ++ T b true (rprev o)
       ++ (if binParen o p q then [.rp] else []) := by simp [T, toks]
 
 /-- a parenthesised expression as a primary -/
@@ -394,29 +437,37 @@ theorem child_cond (o : BinOp) (e : Expr) (m : Nat) (rest : List Tok)
       exact h h1
   | _ => simp [LoopCond]
 
+theorem child_closed (o : BinOp) (e : Expr) (m : Nat) (rest : List Tok) (h : o.chainR = false) : LoopCond e true (rprev o) m rest := by
+  cases e with
+  | bin o' x y => exact Or.inl (rprev_paren o o' h)
+  | _ => simp [LoopCond]
+
 theorem open_bin (o : BinOp) (a b : Expr) (A : ParseOK a) (B : ParseOK b) :
     ∃ c, c ≤ sz a + sz b ∧ 1 ≤ c ∧ ∀ n, 4 * (sz a + sz b + 1) ≤ n + 3 → ∀ m r, m ≤ o.bp → Fol (nextLvl o) r →
-      parseExpr n m (T a true (some o) ++ .op o :: (T b true (some o) ++ r)) = parseLoop (n - c) m (norm (.bin o a b)) r := by
+      parseExpr n m (T a true (some o) ++ .op o :: (T b true (rprev o) ++ r)) = parseLoop (n - c) m (norm (.bin o a b)) r := by
   have hsa := sz_pos a
   have hsb := sz_pos b
   obtain ⟨ca, hca, hca1, La⟩ := A.loop true (some o)
-  by_cases ho : o.omitSame = true
-  · obtain ⟨db, hdb, hdb1, Cb⟩ := B.chain o ho
+  by_cases ho : o.chainR = true
+  · have hom := chainR_omit ho
+    obtain ⟨db, hdb, hdb1, Cb⟩ := B.chain o ho
     refine ⟨ca + db, by omega, by omega, ?_⟩
     intro n hn m r hm hr
-    have hnl := nextLvl_omit o ho
+    have hnl := nextLvl_omit o hom
+    rw [rprev_of_chainR ho]
     rw [La n (by omega) m _ (child_cond o a m _ (fun _ => ⟨hm, by simp [Fol]⟩)) (by simp [NoQ])]
     rw [Cb (n - ca) (by omega) m (norm a) r hm (hnl ▸ hr)]
     rw [norm_bin, if_pos ho, Nat.sub_sub]
-  · obtain ⟨cb, hcb, hcb1, Lb⟩ := B.loop true (some o)
+  · have hof : o.chainR = false := by simpa using ho
+    obtain ⟨cb, hcb, hcb1, Lb⟩ := B.loop true (rprev o)
     refine ⟨ca + 1, by omega, by omega, ?_⟩
     intro n hn m r hm hr
-    rw [La n (by omega) m _ (child_cond o a m _ (fun h => absurd h ho)) (by simp [NoQ])]
+    rw [La n (by omega) m _ (child_cond o a m _ (fun _ => ⟨hm, by simp [Fol]⟩)) (by simp [NoQ])]
     obtain ⟨k, hk⟩ : ∃ k, n - ca = k + 1 := ⟨n - ca - 1, by omega⟩
     rw [hk, parseLoop]
     simp only [hm, if_true]
     have hl : (if o.rightAssoc = true then o.bp else o.bp + 1) = nextLvl o := rfl
-    rw [hl, Lb k (by omega) (nextLvl o) r (child_cond o b _ _ (fun h => absurd h ho)) hr.noQ]
+    rw [hl, Lb k (by omega) (nextLvl o) r (child_closed o b _ _ hof) hr.noQ]
     obtain ⟨j, hj⟩ : ∃ j, k - cb = j + 1 := ⟨k - cb - 1, by omega⟩
     rw [hj, parseLoop_stop j _ _ r hr]
     simp only []
@@ -437,7 +488,7 @@ theorem parseOK_bin (o : BinOp) (a b : Expr) (A : ParseOK a) (B : ParseOK b) :
     obtain ⟨k, rfl⟩ : ∃ k, n = k + 2 := ⟨n - 2, by omega⟩
     rw [T_bin]
     simp only [hp, if_true, List.singleton_append, List.cons_append, List.append_assoc, List.nil_append]
-    have h := parseUnary_paren (T a true (some o) ++ .op o :: T b true (some o)) (norm (.bin o a b)) k c0 r hr (by omega) (by
+    have h := parseUnary_paren (T a true (some o) ++ .op o :: T b true (rprev o)) (norm (.bin o a b)) k c0 r hr (by omega) (by
       have := Hopen k (by omega) 0 (.rp :: r) (Nat.zero_le _) (by simp [Fol])
       simpa [List.append_assoc] using this)
     simpa [List.append_assoc] using h
@@ -449,7 +500,7 @@ theorem parseOK_bin (o : BinOp) (a b : Expr) (A : ParseOK a) (B : ParseOK b) :
     obtain ⟨k, rfl⟩ : ∃ k, n = k + 1 := ⟨n - 1, by omega⟩
     rw [T_bin]
     simp only [hp, if_true, List.singleton_append, List.cons_append, List.append_assoc, List.nil_append]
-    have h := parsePrimary_paren (T a true (some o) ++ .op o :: T b true (some o)) (norm (.bin o a b)) k c0 r (by omega) (by
+    have h := parsePrimary_paren (T a true (some o) ++ .op o :: T b true (rprev o)) (norm (.bin o a b)) k c0 r (by omega) (by
       have := Hopen k (by omega) 0 (.rp :: r) (Nat.zero_le _) (by simp [Fol])
       simpa [List.append_assoc] using this)
     have h2 := parsePP_of_primary h
@@ -467,11 +518,12 @@ theorem parseOK_bin (o : BinOp) (a b : Expr) (A : ParseOK a) (B : ParseOK b) :
         simp only [hp, Bool.false_eq_true, if_false, List.nil_append, List.append_nil, List.append_assoc, List.singleton_append]
         exact Hopen n (by omega) m r hm hf
   · intro o' ho'
+    have hom' := chainR_omit ho'
     by_cases hp : binParen o true (some o') = true
     · have hne : o ≠ o' := by
         intro h; subst h
         rw [binParen_true] at hp
-        simp [ho'] at hp
+        simp [hom'] at hp
       exact ⟨1, by omega, by omega, fun n hn m l r hm hr =>
         chain_of_loop _ o' ho' (by intro x y h; injection h with h1; exact hne h1)
           (fun n hn m r hr => loop_of_unary _ _ _ (hu _ _ hp) n hn m r hr) n hn m l r hm hr⟩
@@ -479,17 +531,17 @@ theorem parseOK_bin (o : BinOp) (a b : Expr) (A : ParseOK a) (B : ParseOK b) :
       simp at hp
       obtain ⟨h1, h2⟩ := hp
       subst h2
-      obtain ⟨da, hda, hda1, Ca⟩ := A.chain o' h1
-      obtain ⟨db, hdb, hdb1, Cb⟩ := B.chain o' h1
+      obtain ⟨da, hda, hda1, Ca⟩ := A.chain o' ho'
+      obtain ⟨db, hdb, hdb1, Cb⟩ := B.chain o' ho'
       refine ⟨da + db, by omega, by omega, ?_⟩
       intro n hn m l r hm hr
       rw [hsz] at hn
       have hbp : binParen o' true (some o') = false := by rw [binParen_true]; simp [h1]
-      rw [T_bin]
+      rw [T_bin, rprev_of_chainR ho']
       simp only [hbp, Bool.false_eq_true, if_false, List.nil_append, List.append_nil, List.append_assoc, List.singleton_append]
       rw [Ca n (by omega) m l _ hm (by simp [Fol])]
       rw [List.cons_append, Cb (n - da) (by omega) m _ r hm hr]
-      rw [norm_bin, if_pos h1, attach_assoc, Nat.sub_sub]
+      rw [norm_bin, if_pos ho', attach_assoc, Nat.sub_sub]
 
 /-! ### qualifiers, calls, aggregate initialisers, QUERY -/
 
@@ -774,7 +826,7 @@ theorem T_start : ∀ e, wfE e → ∀ p q, ∃ t ts, T e p q = t :: ts ∧ Star
     · simp only [hp, if_true]; exact ⟨.lp, _, rfl, by simp [Starter]⟩
     · obtain ⟨t, ts, ht, hs⟩ := iha h.1 true (some o)
       simp only [hp, Bool.false_eq_true, if_false, List.nil_append, List.append_nil, List.append_assoc]
-      obtain ⟨ts', h'⟩ := head_append ht ([Tok.op o] ++ T b true (some o))
+      obtain ⟨ts', h'⟩ := head_append ht ([Tok.op o] ++ T b true (rprev o))
       exact ⟨t, ts', h', hs⟩
   | neg a _ =>
     intro _ p q; rw [T_neg]
@@ -1141,7 +1193,7 @@ theorem sz_le_toks : ∀ e : Expr,
   | ident s => exact ⟨fun _ p q => by simp [T_ident, sz], fun h => by simp [wfArgs] at h, fun h => by simp [wfItems] at h⟩
   | bin o a b iha ihb =>
     refine ⟨fun h p q => ?_, fun h => by simp [wfArgs] at h, fun h => by simp [wfItems] at h⟩
-    have := iha.1 h.1 true (some o); have := ihb.1 h.2 true (some o)
+    have := iha.1 h.1 true (some o); have := ihb.1 h.2 true (rprev o)
     rw [T_bin]; simp only [List.length_append, sz]; simp; omega
   | neg a iha =>
     refine ⟨fun h p q => ?_, fun h => by simp [wfArgs] at h, fun h => by simp [wfItems] at h⟩
